@@ -475,7 +475,10 @@ func (g *generator) parsePrecedingComment(
 	// parse anything.  (But we do need to merge below.)
 	var commentLines []string
 	if pos != nil && pos.Src != nil {
-		sourceLines := strings.Split(pos.Src.Input, "\n")
+		// The GraphQL lexer, whose line numbers we use, ends a line at "\n",
+		// "\r\n" and a bare "\r" alike.
+		sourceLines := strings.Split(
+			strings.NewReplacer("\r\n", "\n", "\r", "\n").Replace(pos.Src.Input), "\n")
 		for i := pos.Line - 1; i > 0; i-- {
 			line := strings.TrimSpace(sourceLines[i-1])
 			trimmed := strings.TrimSpace(strings.TrimPrefix(line, "#"))
